@@ -271,6 +271,13 @@ theorem raises_backTell : Raises SaveErrC backTell :=
 
 theorem sIO (e : Env) : SaveErrC e .io := sPrim (Id3F.primC_io e)
 
+theorem raises_seekBack (off : Int) : Raises SaveErrC (seekBack off) := by
+  unfold seekBack
+  apply Raises.bind (Raises.ftell.weaken fun _ _ => sInj); intro p
+  split
+  · exact Raises.raise _ sIO
+  · exact (raises_fseekRel _).weaken fun _ _ => sInj
+
 theorem raises_viaV1M : Raises SaveErrC viaV1M := by
   unfold viaV1M
   apply Raises.bind (Id3F.RaisesC.getSize.weaken fun _ _ => sPrim); intro sz
@@ -280,7 +287,7 @@ theorem raises_viaV1M : Raises SaveErrC viaV1M := by
     apply Raises.bind ((Raises.fread _).weaken fun _ _ => sInj); intro t
     split
     · exact Raises.pure _ _
-    · apply Raises.bind ((raises_fseekRel _).weaken fun _ _ => sInj); intro _
+    · apply Raises.bind (raises_seekBack _); intro _
       apply Raises.bind raises_readIsApe; intro a
       split
       · exact Raises.bind raises_backTell fun _ => Raises.pure _ _
@@ -292,7 +299,7 @@ theorem raises_viaV1M : Raises SaveErrC viaV1M := by
           apply Raises.bind ((Raises.fread _).weaken fun _ _ => sInj); intro d
           split
           · exact Raises.raise _ sIO
-          · apply Raises.bind ((raises_fseekRel _).weaken fun _ _ => sInj); intro _
+          · apply Raises.bind (raises_seekBack _); intro _
             apply Raises.bind raises_readIsApe; intro b
             split
             · exact Raises.bind raises_backTell fun _ => Raises.pure _ _
@@ -305,10 +312,11 @@ theorem raises_tryCatch_of {P : Env → PyErr → Prop} {body : FileM α} {pred 
 
 theorem raises_findMetadataM : Raises SaveErrC findMetadataM := by
   unfold findMetadataM
+  apply Raises.bind (Raises.fseekEnd.weaken fun _ _ => sInj); intro _
   apply Raises.bind
   · exact raises_tryCatch_of
-      (Raises.bind ((raises_fseekFromEnd _).weaken fun _ _ => sInj) fun _ => Raises.pure _ _)
-      (fun _ => Raises.bind (Raises.fseekEnd.weaken fun _ _ => sInj) fun _ => Raises.pure _ _)
+      (Raises.bind (raises_seekBack _) fun _ => Raises.pure _ _)
+      (fun _ => Raises.pure _ _)
   · intro sought
     split
     · exact Raises.pure _ _
@@ -330,7 +338,7 @@ theorem raises_fixBrokenM (fuel start : Nat) : Raises SaveErrC (fixBrokenM fuel 
     · exact Raises.pure _ _
     · apply Raises.bind
       · exact raises_tryCatch_of
-          (Raises.bind ((raises_fseekRel _).weaken fun _ _ => sInj) fun _ => Raises.pure _ _)
+          (Raises.bind (raises_seekBack _) fun _ => Raises.pure _ _)
           (fun _ => Raises.pure _ _)
       · intro moved
         split
